@@ -31,8 +31,8 @@ FUNCTIONS = [
     "pyxel.run:run_mode",
 ]
 STUBS = ["none in exposure / observation (real run_mode); fitness(): problem instance built with __new__ + the attributes fitness() reads"]
-OUTSIDE = ["dask graph execution and pygmo island threads are exercised by concrete replay of solver-found crash points only",
-           "calibration initial-population / evolution phases (pygmo)"]
+OUTSIDE = ["dask graph execution and calibration (pygmo: initial population and evolution) are concrete witness runs of crash points, not symbolic",
+           "pyxel.run is driven with generated YAML files without an outputs section and with default logging"]
 ASSUMPTIONS = []
 EXPLANATION = "symbolic crash point; oracle: same exception object reaches the caller, notes name group+model (+ parameters), nothing runs after the fault"
 
